@@ -62,6 +62,29 @@ func navigation(c *fw.Ctx) {
 		r := c.Rng(id)
 		cs := gen.GenLedger(r, cfgs[i%len(cfgs)])
 		sc := cs.Script
+		// let variable uses also occur inside variable origins: an origin's account argument is
+		// rewritten to an account variable declared before it
+		for di, d := range sc.Vars {
+			if d.Origin == nil || len(d.Origin.Args) == 0 || !r.Bool() {
+				continue
+			}
+			for _, e := range sc.Vars[:di] {
+				if e.Type == "account" && e.Origin == nil {
+					d.Origin.Args[0] = gen.V(e.Name)
+					break
+				}
+			}
+		}
+		if r.Chance(1, 3) {
+			// a meta() origin after all plain declarations, reading through an account variable
+			for _, e := range sc.Vars {
+				if e.Type == "account" && e.Origin == nil {
+					sc.Vars = append(sc.Vars, &gen.VarDecl{Type: "string", Name: "frommeta", Origin: &gen.Call{Name: "meta", Args: []gen.Expr{gen.V(e.Name), gen.S("k")}}})
+					sc.Stmts = append(sc.Stmts, &gen.Call{Name: "set_tx_meta", Args: []gen.Expr{gen.S("m"), gen.V("frommeta")}})
+					break
+				}
+			}
+		}
 		lk := layouts[i%len(layouts)]
 		pr := gen.Print(sc, gen.Layout{Kind: lk, R: r})
 		uri := "file:///nav.num"
